@@ -151,3 +151,19 @@ func init() {
 		return structure{st[0], n, st[2]}
 	}
 }
+
+func init() {
+	// Time.Sub on symbolic instants multiplies 64-bit values by 10^9 and branches on overflow
+	// checks: out of reach for bit-blasting (probe: unknown at 60 s in all three back ends).
+	// Contract stub: an uninterpreted function of the two instants; day distances computed
+	// from it are outside every claim.
+	externals["(time.Time).Sub"] = func(in *Interp, fr *frame, args []value) value {
+		if a, ok := nativeTime(args[0]); ok {
+			if b, ok := nativeTime(args[1]); ok {
+				return in.tb.BV(SBV64, uint64(a.Sub(b)))
+			}
+		}
+		t, u := args[0].(structure), args[1].(structure)
+		return in.tb.UF("tsub", SBV64, t[0].(*Term), t[1].(*Term), u[0].(*Term), u[1].(*Term))
+	}
+}
